@@ -141,6 +141,31 @@ impl Prop for Foreign {
                 }
             }
         }
+        // the same file read from disk by path (BufReader<File>), for one model in eight
+        if (n + m.trailing.len() + m.ty.code() as usize) % 8 == 0 || n >= 1000 {
+            ctx.class("from_path-route");
+            let p = crate::common::scratch_dir().join("c03.shp");
+            std::fs::write(&p, &enc.shp).map_err(|e| Fail::new("disk-io", e.to_string()))?;
+            std::fs::write(p.with_extension("shx"), &enc.shx).map_err(|e| Fail::new("disk-io", e.to_string()))?;
+            let all = shapefile::read_shapes(&p).map_err(|e| Fail::new("valid-record-rejected", format!("read_shapes(path): {}", err_str(&e))))?;
+            ensure!(all.len() == n, "count", "read_shapes(path) returns {} of {}", all.len(), n);
+            for (i, s) in all.iter().enumerate() {
+                if let Err(e) = cmp_read(&m.recs[i].geom, &view_shape(s)) {
+                    fail!("decode-differs", "read_shapes(path) record {}: {}", i, e);
+                }
+            }
+            let mut r = shapefile::ShapeReader::from_path(&p).map_err(|e| Fail::new("open-error", err_str(&e)))?;
+            for i in (0..n).rev() {
+                match r.read_nth_shape(i) {
+                    Some(Ok(s)) => {
+                        if let Err(e) = cmp_read(&m.recs[i].geom, &view_shape(&s)) {
+                            fail!("decode-differs", "from_path read_nth_shape({}): {}", i, e);
+                        }
+                    }
+                    other => fail!("valid-record-rejected", "from_path read_nth_shape({}): {:?}", i, other.map(|r| r.map(|_| ()).map_err(|e| err_str(&e)))),
+                }
+            }
+        }
         // typed read when the file has no null record
         if m.ty != Ty::Null && m.recs.iter().all(|r| r.geom.ty == m.ty) {
             struct T<'a>(&'a FileModel, &'a [u8]);
@@ -178,6 +203,37 @@ impl RandomProp for Foreign {
     }
     fn cases(env: &Env) -> u64 {
         env.n(14 * 10_000, 14 * 300_000)
+    }
+}
+
+pub struct ForeignBufio;
+impl Prop for ForeignBufio {
+    type Case = FileModel;
+    fn name() -> &'static str {
+        "foreign-bufio"
+    }
+    fn rule() -> &'static str {
+        "proptest: 3000-8000 tiny records of mixed sizes (null records, points with and without M, multipoints with 0-2 points, \
+         one- and two-vertex parts) encoded by the reference encoder, read in memory AND by path (read_shapes, ShapeReader::from_path \
+         random access): files of 60-400 KB so that record headers and bodies straddle BufReader's 8 KiB buffer edges at every \
+         4-byte alignment; non-trivial: every case"
+    }
+    fn check(m: &FileModel, ctx: &mut Ctx) -> Result<(), Fail> {
+        ctx.nontrivial();
+        Foreign::check(m, ctx)
+    }
+}
+impl RandomProp for ForeignBufio {
+    fn strategy(_env: &Env) -> BoxedStrategy<FileModel> {
+        gen::ty14()
+            .prop_flat_map(|ty| {
+                let rec = prop_oneof![4 => gen::fgeom(ty, 2, 2), 1 => Just(Geom::null())];
+                proptest::collection::vec(rec, 3000..=8000).prop_map(move |geoms| FileModel::simple(ty, geoms))
+            })
+            .boxed()
+    }
+    fn cases(env: &Env) -> u64 {
+        env.n(14, 140)
     }
 }
 
@@ -337,6 +393,37 @@ impl Prop for IndexOnly {
             }
         }
         ensure!(r.read_nth_shape(n).is_none(), "nth-out-of-range", "read_nth_shape({}) returns something", n);
+        // sources that return fewer bytes than asked per read call must be followed the same way
+        for chunk in [1usize, 3, 7] {
+            let sr = vlib::libops::open_src(vlib::io::Src::short(enc.shp.clone(), vec![chunk]), Some(vlib::io::Src::short(enc.shx.clone(), vec![chunk])))
+                .map_err(|e| Fail::new("open-error", format!("short-read source ({} bytes per call): {}", chunk, err_str(&e))))?;
+            let mut sr = sr;
+            let (items, over) = drain_capped(sr.iter_shapes(), n + 2);
+            ensure!(!over && items.len() == n, "count", "source returning {} byte(s) per read: {} items for {} index entries", chunk, items.len(), n);
+            for (i, it) in items.iter().enumerate() {
+                match it {
+                    Ok(s) => ensure!(view_shape(s) == seq[i], "wrong-record", "source returning {} byte(s) per read: item {} differs from index entry {}", chunk, i, i),
+                    Err(e) => fail!("valid-record-rejected", "source returning {} byte(s) per read: index entry {}: {}", chunk, i, err_str(e)),
+                }
+            }
+        }
+        // one case in eight (and every big file): the same pair of files opened by path
+        if (n + enc.shp.len()) % 8 == 0 || n >= 1000 {
+            ctx.class("from_path-route");
+            let p = crate::common::scratch_dir().join("c14.shp");
+            std::fs::write(&p, &enc.shp).map_err(|e| Fail::new("disk-io", e.to_string()))?;
+            std::fs::write(p.with_extension("shx"), &enc.shx).map_err(|e| Fail::new("disk-io", e.to_string()))?;
+            let mut pr = shapefile::ShapeReader::from_path(&p).map_err(|e| Fail::new("open-error", err_str(&e)))?;
+            ensure!(pr.shape_count().ok() == Some(n), "shape-count", "from_path: shape_count {:?} for {} index entries", pr.shape_count().ok(), n);
+            let (items, over) = drain_capped(pr.iter_shapes(), n + 2);
+            ensure!(!over && items.len() == n, "count", "from_path: iteration yields {} items for {} index entries", items.len(), n);
+            for (i, it) in items.iter().enumerate() {
+                match it {
+                    Ok(s) => ensure!(view_shape(s) == seq[i], "wrong-record", "from_path: item {} differs from index entry {}", i, i),
+                    Err(e) => fail!("valid-record-rejected", "from_path: index entry {}: {}", i, err_str(e)),
+                }
+            }
+        }
         // iteration after random access (the last one was at index 0) still follows the index
         let (items, over) = drain_capped(r.iter_shapes(), n + 2);
         ensure!(!over && items.len() == n, "count", "iteration after random access yields {} items for {} index entries", items.len(), n);
@@ -347,6 +434,41 @@ impl Prop for IndexOnly {
             }
         }
         Ok(())
+    }
+}
+
+pub struct IndexOnlyBufio;
+impl Prop for IndexOnlyBufio {
+    type Case = LayoutCase;
+    fn name() -> &'static str {
+        "indexonly-bufio"
+    }
+    fn rule() -> &'static str {
+        "proptest: 1500-4000 small records in index order separated by filler runs of 0-16 bytes, read in memory, through short-read \
+         sources and by path (BufReader<File>): files far beyond 8 KiB so that fillers and record headers straddle buffer edges; \
+         non-trivial: every case"
+    }
+    fn check(c: &LayoutCase, ctx: &mut Ctx) -> Result<(), Fail> {
+        ctx.nontrivial();
+        IndexOnly::check(c, ctx)
+    }
+}
+impl RandomProp for IndexOnlyBufio {
+    fn strategy(_env: &Env) -> BoxedStrategy<LayoutCase> {
+        (gen::ty13(), 1500usize..=4000)
+            .prop_flat_map(|(ty, n)| {
+                let small_filler = (0usize..=8, any::<u8>()).prop_map(|(w, b)| vec![b; w * 2]);
+                (proptest::collection::vec(gen::fgeom(ty, 2, 2), n), proptest::collection::vec(small_filler, n + 1)).prop_map(move |(geoms, fillers)| {
+                    let mut m = FileModel::simple(ty, geoms);
+                    m.order = (0..n).collect();
+                    m.fillers = fillers;
+                    LayoutCase { model: m }
+                })
+            })
+            .boxed()
+    }
+    fn cases(env: &Env) -> u64 {
+        env.n(13, 130)
     }
 }
 
